@@ -121,6 +121,11 @@ def gen_cases(rng):
             m = ("macro", "mi", "k", ("sequential_block", ("gate", "X", ("array_item", "q", "k"))))
             add("index-macro:%s" % cls(bad, n), "expand_macros", wrap(hdr, [("gate", "mi", bad)], [m]),
                 wrap(hdr, [("gate", "mi", good)], [m]))
+            # ... where the parameter shadows a let used by an identical statement elsewhere
+            hk = [("let", "k", 0)] + hdr
+            pre = ("macro", "uk", ("sequential_block", ("gate", "X", ("array_item", "q", "k"))))
+            add("index-macro-param-shadows-let:%s" % cls(bad, n), "expand_macros", wrap(hk, [("gate", "uk"), ("gate", "mi", bad)], [pre, m]),
+                wrap(hk, [("gate", "uk"), ("gate", "mi", good)], [pre, m]))
         # register size shrunk by override below a used index
         if let_size and n >= 2:
             add("index-vs-overridden-size", "fill_in_let", wrap(hdr, [("gate", "X", ("array_item", "q", n - 1))]),
